@@ -48,6 +48,7 @@ class Submodule(Module):
         return []
 
     def resolve_inherit(self, obj_tree, inherit_version):
+        self.ancestor_obj = None
         if not self.ancestor_name:
             return
         if self.ancestor_name in obj_tree:
